@@ -1,5 +1,236 @@
-import RdestModel.Bencode.Encode
+/-
+  C15 — bencode encode/decode are mutually inverse and canonical.
+-/
+import RdestModel.Lemmas.Bencode
+set_option linter.unusedSimpArgs false
+set_option linter.unusedVariables false
 namespace Rdest.Props.C15
-open Rdest.Bencode
-theorem placeholder : isDigit 48 = true := by decide
+open Rdest Rdest.Bencode
+
+/-! ### Well-formed values: what the Rust types can hold -/
+
+/-- Every key is smaller (byte-wise) than all keys after it: a `HashMap` printed in ascending key order. -/
+def ascending : List (Bytes × BValue) → Bool
+  | [] => true
+  | (k, _) :: rest => rest.all (fun e => bytesLt k e.1) && ascending rest
+
+mutual
+/-- `i64` integers, strings and keys shorter than 2^64 bytes, dictionaries as ascending duplicate-free lists. -/
+def wf : BValue → Bool
+  | .int i => decide (-(2 : Int) ^ 63 ≤ i ∧ i < (2 : Int) ^ 63)
+  | .str s => decide (s.length < 2 ^ 64)
+  | .list l => wfList l
+  | .dict d => ascending d && wfEntries d
+def wfList : List BValue → Bool
+  | [] => true
+  | v :: vs => wf v && wfList vs
+def wfEntries : List (Bytes × BValue) → Bool
+  | [] => true
+  | (k, v) :: rest => decide (k.length < 2 ^ 64) && wf v && wfEntries rest
+end
+
+/-! ### Dictionaries: inserting an ascending list reproduces it -/
+
+theorem bytesLt_asymm (a b : Bytes) (h : bytesLt a b = true) : bytesLt b a = false := by
+  induction a generalizing b with
+  | nil => cases b <;> simp_all [bytesLt]
+  | cons x xs ih =>
+    cases b with
+    | nil => simp [bytesLt] at h
+    | cons y ys =>
+      simp only [bytesLt] at h ⊢
+      by_cases h1 : x < y
+      · have h2 : ¬ y < x := by
+          intro c; exact absurd (UInt8.lt_trans h1 c) (UInt8.lt_irrefl x)
+        simp [h1, h2]
+      · simp only [h1, if_false] at h
+        by_cases h2 : y < x
+        · simp [h2] at h
+        · simp only [h2, if_false] at h ⊢
+          simp only [h1, if_false]
+          exact ih ys h
+
+theorem dictInsert_at_end (k : Bytes) (v : BValue) (acc : List (Bytes × BValue))
+    (h : ∀ e ∈ acc, bytesLt e.1 k = true) : dictInsert k v acc = acc ++ [(k, v)] := by
+  induction acc with
+  | nil => rfl
+  | cons e es ih =>
+    obtain ⟨k', v'⟩ := e
+    have h1 : bytesLt k' k = true := h (k', v') (by simp)
+    have h2 : bytesLt k k' = false := bytesLt_asymm k' k h1
+    simp only [dictInsert, h2, Bool.false_eq_true, if_false, h1, if_true, List.cons_append]
+    rw [ih (fun e he => h e (by simp [he]))]
+
+theorem foldl_insert_ascending (l acc : List (Bytes × BValue)) (hl : ascending l = true)
+    (hacc : ∀ a ∈ acc, ∀ e ∈ l, bytesLt a.1 e.1 = true) :
+    l.foldl (fun acc kv => dictInsert kv.1 kv.2 acc) acc = acc ++ l := by
+  induction l generalizing acc with
+  | nil => simp
+  | cons e es ih =>
+    obtain ⟨k, v⟩ := e
+    simp only [ascending, Bool.and_eq_true, List.all_eq_true] at hl
+    simp only [List.foldl_cons]
+    rw [dictInsert_at_end k v acc (fun a ha => hacc a ha (k, v) (by simp))]
+    rw [ih (acc ++ [(k, v)]) hl.2 ?_]
+    · simp
+    · intro a ha e he
+      simp only [List.mem_append, List.mem_singleton] at ha
+      rcases ha with ha | rfl
+      · exact hacc a ha e (by simp [he])
+      · exact hl.1 e he
+
+theorem mkDict_ascending (d : List (Bytes × BValue)) (h : ascending d = true) : mkDict d = d := by
+  have := foldl_insert_ascending d [] h (by simp)
+  simpa [mkDict] using this
+
+/-! ### Decoding an encoding -/
+
+def consAll (vs : List BValue) (r : DRes) : DRes := vs.foldr consV r
+
+theorem consAll_ok (vs : List BValue) (rest : Bytes) : consAll vs (.ok ([], rest)) = .ok (vs, rest) := by
+  induction vs with
+  | nil => rfl
+  | cons v vs ih => simp [consAll, consV] at ih ⊢; rw [ih]
+
+/-- The flat `[key, value, key, value, …]` list a dictionary decodes to before `parse_dict` pairs it up. -/
+def flat : List (Bytes × BValue) → List BValue
+  | [] => []
+  | (k, v) :: rest => .str k :: v :: flat rest
+
+theorem pairUp_flat (d : List (Bytes × BValue)) : pairUp (flat d) = some d := by
+  induction d with
+  | nil => rfl
+  | cons e es ih => obtain ⟨k, v⟩ := e; simp [flat, pairUp, ih]
+
+theorem str_enc (s rest : Bytes) (hlen : s.length < 2 ^ 64) (c w : Bool) :
+    valuesU c ((natDec s.length ++ cColon :: s) ++ rest) w = consV (.str s) (valuesU c rest w) := by
+  cases hd : natDec s.length with
+  | nil => exact absurd hd (natDec_ne_nil _)
+  | cons d0 ds =>
+    have hdig : isDigit d0 = true := by
+      have := natDec_all_digits s.length; rw [hd] at this
+      simp only [List.all_cons, Bool.and_eq_true] at this; exact this.1
+    have := parseByteStr_enc s rest hlen d0 ds hd
+    simp only [List.cons_append, List.append_assoc]
+    exact valuesU_str c d0 _ s rest w hdig this
+
+mutual
+/-- Decoding `encode v ++ rest` yields `v` followed by whatever `rest` decodes to — for the implementation's
+    grammar and for the strict one, at any nesting level. -/
+theorem dec_enc (v : BValue) (hw : wf v = true) (c : Bool) (rest : Bytes) (w : Bool) :
+    valuesU c (encode v ++ rest) w = consV v (valuesU c rest w) := by
+  match v, hw with
+  | .int i, hw =>
+    simp only [wf, decide_eq_true_eq] at hw
+    simp only [encode, List.cons_append, List.append_assoc, List.singleton_append]
+    exact valuesU_int c _ rest i w (parseInt_enc i rest hw.1 hw.2)
+  | .str s, hw =>
+    simp only [wf, decide_eq_true_eq] at hw
+    simp only [encode]
+    exact str_enc s rest hw c w
+  | .list items, hw =>
+    simp only [wf] at hw
+    simp only [encode, List.cons_append, List.append_assoc, List.singleton_append]
+    have hin : valuesU c (encodeList items ++ cE :: rest) true = .ok (items, rest) := by
+      rw [dec_encList items hw c (cE :: rest) true, valuesU_end, consAll_ok]
+    exact valuesU_list c _ rest items w hin
+  | .dict d, hw =>
+    simp only [wf, Bool.and_eq_true] at hw
+    simp only [encode, List.cons_append, List.append_assoc, List.singleton_append]
+    have hin : valuesU c (encodeDict d ++ cE :: rest) true = .ok (flat d, rest) := by
+      rw [dec_encDict d hw.2 c (cE :: rest) true, valuesU_end, consAll_ok]
+    have := valuesU_dict c _ rest (flat d) d w hin (pairUp_flat d)
+    rw [mkDict_ascending d hw.1] at this
+    exact this
+theorem dec_encList (l : List BValue) (hw : wfList l = true) (c : Bool) (rest : Bytes) (w : Bool) :
+    valuesU c (encodeList l ++ rest) w = consAll l (valuesU c rest w) := by
+  match l, hw with
+  | [], _ => rfl
+  | v :: vs, hw =>
+    simp only [wfList, Bool.and_eq_true] at hw
+    simp only [encodeList, List.append_assoc]
+    rw [dec_enc v hw.1 c _ w, dec_encList vs hw.2 c rest w]; rfl
+theorem dec_encDict (d : List (Bytes × BValue)) (hw : wfEntries d = true) (c : Bool) (rest : Bytes) (w : Bool) :
+    valuesU c (encodeDict d ++ rest) w = consAll (flat d) (valuesU c rest w) := by
+  match d, hw with
+  | [], _ => rfl
+  | (k, v) :: es, hw =>
+    simp only [wfEntries, Bool.and_eq_true, decide_eq_true_eq] at hw
+    simp only [encodeDict, List.append_assoc]
+    have hk := str_enc k (encode v ++ (encodeDict es ++ rest)) hw.1.1 c w
+    simp only [List.append_assoc, List.cons_append] at hk ⊢
+    rw [hk, dec_enc v hw.1.2 c _ w, dec_encDict es hw.2 c rest w]; rfl
+end
+
+/-- **T1.** Decoding the encoding of any value yields exactly that value (here: of any sequence of values). -/
+theorem T1_decode_encode (v : BValue) (hw : wf v = true) : decodeImpl (encode v) = some [v] := by
+  have h := dec_enc v hw true [] false
+  simp only [List.append_nil] at h
+  unfold decodeImpl
+  have : values true ((encode v).length + 1) (encode v) false = valuesU true (encode v) false := rfl
+  rw [this, h, valuesU_nil]
+  simp [consV, toOpt]
+
+theorem T1_decode_encode_seq (vs : List BValue) (hw : wfList vs = true) : decodeImpl (encodeList vs) = some vs := by
+  have h := dec_encList vs hw true [] false
+  simp only [List.append_nil] at h
+  unfold decodeImpl
+  have : values true ((encodeList vs).length + 1) (encodeList vs) false = valuesU true (encodeList vs) false := rfl
+  rw [this, h, valuesU_nil]
+  simp only [Bool.false_and, Bool.false_eq_true, if_false, consAll_ok, toOpt]
+
+/-- The encoder's output is also accepted by the strict grammar (it is well-formed bencode). -/
+theorem T2_encoding_is_strictly_well_formed (v : BValue) (hw : wf v = true) : decodeStrict (encode v) = some [v] := by
+  have h := dec_enc v hw false [] false
+  simp only [List.append_nil] at h
+  unfold decodeStrict decodeStrictE
+  have : values false ((encode v).length + 1) (encode v) false = valuesU false (encode v) false := rfl
+  rw [this, h, valuesU_nil]
+  simp [consV, toOpt]
+
+/-! ### T2: the output is canonical -/
+
+/-- Integers are written in shortest decimal form: no leading zero (except `0` itself), no `-0`, no `+`. -/
+theorem T2_int_shortest (i : Int) :
+    (∀ b ∈ intDec i, isDigit b = true ∨ b = cMinus) ∧
+    (i ≥ 0 → ((intDec i).length ≥ 2 → (intDec i).head? ≠ some 48) ∧ (intDec i).all isDigit = true) ∧
+    (i < 0 → ∃ ds, intDec i = cMinus :: ds ∧ ds.head? ≠ some 48 ∧ ds.all isDigit = true ∧ ds ≠ []) := by
+  have hnd := natDec_all_digits i.natAbs
+  obtain ⟨hh1, hh2⟩ := natDec_head i.natAbs
+  refine ⟨?_, ?_, ?_⟩
+  · intro b hb
+    unfold intDec at hb
+    split at hb
+    · simp only [List.mem_cons] at hb
+      rcases hb with rfl | hb
+      · right; rfl
+      · left; exact List.all_eq_true.mp hnd b hb
+    · left; exact List.all_eq_true.mp hnd b hb
+  · intro h
+    have : ¬ i < 0 := by omega
+    simp only [intDec, this, if_false]
+    exact ⟨hh1, hnd⟩
+  · intro h
+    simp only [intDec, h, if_true]
+    exact ⟨_, rfl, hh2 (by omega), hnd, natDec_ne_nil _⟩
+
+/-- Strings (and keys) are length-prefixed with the shortest decimal length; dictionary keys are emitted in the
+    order of the model's association list, which `wf` requires to be strictly ascending. -/
+theorem T2_dict_keys_ascending (d : List (Bytes × BValue)) (h : wf (.dict d) = true) : ascending d = true := by
+  simp only [wf, Bool.and_eq_true] at h; exact h.1
+
+/-- **T3.** Re-encoding the decoding of a canonical document (the encoding of well-formed values) reproduces the
+    document byte for byte. -/
+theorem T3_reencode_canonical (vs : List BValue) (hw : wfList vs = true) :
+    (decodeImpl (encodeList vs)).map encodeList = some (encodeList vs) := by
+  rw [T1_decode_encode_seq vs hw]; rfl
+
+/-! ### Non-vacuity (tests) -/
+
+example : wf (.dict [([97], .int (-5)), ([97, 98], .list [.str [58, 101], .dict []])]) = true := by decide
+-- "d1:ai-5e2:abl2::edeee"
+example : encode (.dict [([97], .int (-5)), ([97, 98], .list [.str [58, 101], .dict []])]) =
+    [100, 49, 58, 97, 105, 45, 53, 101, 50, 58, 97, 98, 108, 50, 58, 58, 101, 100, 101, 101, 101] := by decide
+example : natDec 1234567890 = [49, 50, 51, 52, 53, 54, 55, 56, 57, 48] := by decide
+
 end Rdest.Props.C15
